@@ -102,7 +102,7 @@ for p in props:
                 "text": "Static analysis decides structural necessary conditions of the property for ALL paths of the current source (not the behaviour itself): " + decided + ". Not decided: " + notdecided + ". A violated or undecided obligation fails the check with file:line, rule and construct.",
                 "design_ref": f"DESIGN.md section 4, {pid}",
             },
-            "level_note": "Trusted base: go/packages+go/types+go/ssa (x/tools v0.29.0), Go semantics, documented behaviour of bytes/encoding/binary/sync/context, and the rule tables in /verif/checker. Analysed configuration: linux/amd64, default tags, non-test packages ./tars/... (+ tars2go module where stated). Functions that do not exist in the pinned tree (checker/baseline_funcs.txt) and are only called statically from their own package are expanded in place at their call sites before analysis (source-level overlay, reported as NOTE; DESIGN.md section 2), so that an extracted helper is analysed in the context of its callers. Known findings listed in known_findings.txt are printed as KNOWN-FINDING and do not fail the check (none is open).",
+            "level_note": "Trusted base: go/packages+go/types+go/ssa (x/tools v0.29.0), Go semantics, documented behaviour of bytes/encoding/binary/sync/context, and the rule tables in /verif/checker. Analysed configuration: linux/amd64, default tags, non-test packages ./tars/... (+ tars2go module where stated). Functions that do not exist in the pinned tree (checker/baseline_funcs.txt) and are only called statically from their own package are expanded in place at their call sites before analysis (source-level overlay, reported as NOTE; DESIGN.md section 2), so that an extracted helper is analysed in the context of its callers; before that, unexported declarations that were renamed, methods that became plain functions and reordered parameters are identified with their pinned counterparts (checker/baseline_names.json: same body up to renaming, unique match) and analysed under the pinned names (also a source-level overlay with a NOTE line; anything ambiguous is analysed as written). Known findings listed in known_findings.txt are printed as KNOWN-FINDING and do not fail the check (none is open).",
             "technique": tech,
         })
     else:
